@@ -20,7 +20,8 @@ pub fn def() -> PropDef {
                offset 0..=len+1 x {fully buffered, 1 byte per read with chunk size 1, 3-byte chunks} x \
                {tabs_or_spaces, newline, next_newline, fixed with every prefix of the remaining input, prefix + \
                wrong byte, longer than input, empty}; plus proptest-sampled strings up to 300 bytes over all \
-               byte values with generated feeds, pre-buffered amounts and cursor positions. Oracle: reference \
+               byte values with generated feeds, pre-buffered amounts and cursor positions, and strings of up to 200 KB made of \
+               runs (blanks, letters, digits, line ends) of up to 40 KB each. Oracle: reference \
                scanner on the full string, unchanged position/window, delivered-byte bound. Non-trivial: the \
                scanner passed over at least one byte, or deciding needed a byte that was not yet buffered.",
         assumptions: &[
@@ -360,11 +361,60 @@ fn run(ctx: &Ctx) {
         });
     let n = ctx.share(ctx.tier.pick(1_500_000, 40_000_000));
     ctx.run_cases("sampled", n, strat, check);
+
+    // ---- long runs: lines and blank runs of kilobytes (beyond any fixed look-ahead block, beyond
+    // the default chunk), with generated and with default-sized feeds ----
+    let seg = (
+        0u8..6,
+        prop_oneof![4 => 1usize..=10, 3 => 100usize..=3000, 2 => 3000usize..=20000, 1 => 20000usize..=40000],
+    );
+    let strat = (
+        proptest::collection::vec(seg, 1..6),
+        feed_strategy(),
+        any::<bool>(),
+        any::<u16>(),
+        any::<u16>(),
+        prop_oneof![Just(Func::TabsOrSpaces), Just(Func::NextNewline), Just(Func::Newline), Just(Func::Fixed)],
+        any::<u16>(),
+    )
+        .prop_map(|(segs, mut feed, default_chunk, pre, off, func, plen)| {
+            let mut data = vec![];
+            for (kind, len) in segs {
+                match kind {
+                    0 => data.extend((0..len).map(|i| if i % 7 == 3 { b'\t' } else { b' ' })),
+                    1 => data.extend((0..len).map(|i| b'a' + (i % 26) as u8)),
+                    2 => data.extend((0..len).map(|i| b'0' + (i % 10) as u8)),
+                    3 => data.push(b'\n'),
+                    4 => data.extend_from_slice(b"\r\n"),
+                    _ => data.extend((0..len).map(|i| if i % 2 == 0 { b' ' } else { b'x' })),
+                }
+            }
+            if default_chunk {
+                feed.chunk = None;
+            }
+            let n = data.len();
+            let pre = (pre as usize * (n + 2)) >> 16;
+            let off = if off % 4 == 0 { (off as usize * (n + 2)) >> 16 } else { 0 };
+            let rest: &[u8] = if off <= n { &data[off..] } else { &[] };
+            let k = (plen as usize * (rest.len() + 1)) >> 16;
+            let pat = if func == Func::Fixed { rest[..k].to_vec() } else { vec![] };
+            Case {
+                data,
+                feed,
+                pre,
+                adv: 0,
+                off,
+                func,
+                pat,
+            }
+        });
+    let n = ctx.share(ctx.tier.pick(24_000, 640_000));
+    ctx.run_cases("sampled-long", n, strat, check);
 }
 
 fn replay(oracle: &str, v: &Value) -> Option<CheckResult> {
     match oracle {
-        "enumerate" | "sampled" => Some(match replay_from_file::<Case>(v) {
+        "enumerate" | "sampled" | "sampled-long" => Some(match replay_from_file::<Case>(v) {
             Ok(c) => check(&c, &mut Obs::default()),
             Err(e) => Err(Failure::new("C16:decode", e)),
         }),
